@@ -272,6 +272,8 @@ def run(ctx):
     from . import C09
     ctx.alias = {"C09.g": "C07.f"}
     ctx.run_clause("C07.f", C09.c09g_batch)
+    # ... and what is read back after a restart is all of it: the cold load of a key-of-set entry (C09.g staging clauses)
+    ctx.run_clause("C07.f", C09.c09g_staging)
     ctx.alias = {}
     ctx.run_clause("C07.c", c07c)
     ctx.run_clause("C07.d", c07d)
